@@ -106,6 +106,12 @@ func main() {
 	t0 := time.Now()
 	cmd := exec.CommandContext(ctx, bin, args...)
 	cmd.Dir = cwd
+	if len(os.Args) > 11 && os.Args[11] != "" && os.Args[11] != "-" {
+		// the second is issued from an environment with another TMPDIR (a cron
+		// daemon versus a login shell)
+		os.MkdirAll(os.Args[11], 0o755)
+		cmd.Env = append(os.Environ(), "TMPDIR="+os.Args[11])
+	}
 	out, err := cmd.CombinedOutput()
 	r.SecondMS = time.Since(t0).Milliseconds()
 	if ctx.Err() != nil {
